@@ -130,6 +130,10 @@ def handle : List String → Option String
       let p ← parseHexInt? p; let es ← parseInts? es
       if es.length ≠ 20 then none else
       pure (showRes hs (ker4x5ModPrime (toMat 5 es) p))
+  | "chkker2e" :: e :: es => do
+      let e ← parseHexNat? e; let es ← parseInts? es
+      if es.length ≠ 20 then none else
+      pure (if kerPow2Check (toMat 4 (es.take 16)) e (es.drop 16) then "1" else "0")
   | _ => none
 
 end SqiModel.Drv.Int
